@@ -226,7 +226,9 @@ def r3_sort_is_stable_sorted_by_comparator(ctx):
         lt_fn = lambda x, y: x < y  # noqa: E731  (boolean comparator model)
         three = lambda x, y: (x > y) - (x < y)  # noqa: E731
         three10 = lambda x, y: 10 * ((x > y) - (x < y))  # noqa: E731
-        for f, label, expect in ((lt_fn, "boolean <", lambda a, b: (a > b) - (a < b)), (three, "3-way", lambda a, b: (a > b) - (a < b)), (three10, "3-way scaled", lambda a, b: 10 * ((a > b) - (a < b)))):
+        frac = lambda x, y: (x - y) / 4  # noqa: E731  (a difference comparator over values less than 1 apart)
+        for f, label, expect in ((lt_fn, "boolean <", lambda a, b: (a > b) - (a < b)), (three, "3-way", lambda a, b: (a > b) - (a < b)), (three10, "3-way scaled", lambda a, b: 10 * ((a > b) - (a < b))),
+                                 (frac, "3-way fractional (difference of close values)", lambda a, b: (a > b) - (a < b))):
             c = interp.call_function(f2c, [f], {})
             for a, b in itertools.product((1, 2, 3), repeat=2):
                 got = c(a, b)
